@@ -67,10 +67,13 @@ def build_c():
     fcntl.flock(lock, fcntl.LOCK_EX)
     try:
         if os.path.exists(exe):
+            os.utime(d)
             return exe, d
-        # drop older builds: disk is limited
-        for old in glob.glob(CACHE + '/c-*'):
-            shutil.rmtree(old, ignore_errors=True)
+        # drop older builds (disk is limited), but never one a concurrent check of another tree may still be running
+        olds = sorted(glob.glob(CACHE + '/c-*'), key=lambda q: os.path.getmtime(q), reverse=True)
+        for k, old in enumerate(olds):
+            if k >= 3 or time.time() - os.path.getmtime(old) > 3600 or old.endswith('.tmp'):
+                shutil.rmtree(old, ignore_errors=True)
         tmp = d + '.tmp'
         shutil.rmtree(tmp, ignore_errors=True)
         os.makedirs(tmp)
